@@ -255,7 +255,9 @@ def write_ods(book: dict) -> bytes:
 
 def _odp_shape(k, s, c):
     kind = s[0]
-    y = f'svg:x="1cm" svg:y="{k + 1}cm" svg:width="20cm" svg:height="0.9cm"'
+    # positions with fractions of a centimetre: frames 0.4 cm apart, each further LEFT than the one above it, so that
+    # only the exact vertical position gives the reading order
+    y = f'svg:x="{9 - 0.5 * k:.1f}cm" svg:y="{1 + 0.4 * k:.1f}cm" svg:width="8cm" svg:height="0.3cm"'
     if kind == "tbl":
         rows = "".join("<table:table-row>" + "".join(
             "<table:covered-table-cell/>" if _covered(row, j) else
